@@ -73,7 +73,7 @@ theorem digitStr_contains_at (w : Text) (hw : DigitStr w) : w.contains '@' = fal
     simp at this ⊢
     exact ⟨fun h => h1 h.symm, this⟩
 
-theorem signIdxs_digitStr (w : Text) (hw : DigitStr w) : ∀ i acc, signIdxs i acc w = some acc.reverse := by
+theorem signIdxs_digitStr (w : Text) (hw : DigitStr w) : ∀ i acc, signIdxs false i acc w = some acc.reverse := by
   induction w with
   | nil => intro i acc; simp [signIdxs]
   | cons c cs ih =>
@@ -81,8 +81,7 @@ theorem signIdxs_digitStr (w : Text) (hw : DigitStr w) : ∀ i acc, signIdxs i a
     have hc := hw c (by simp)
     have h1 : (c == '+' || c == '-') = false := by digit_cases hc
     have h2 : (c == 'e' || c == 'E') = false := by digit_cases hc
-    rw [signIdxs.eq_def]
-    simp only [h1, h2]
+    simp only [signIdxs, h1, h2, Bool.false_eq_true, if_false]
     exact ih (fun x hx => hw x (by simp [hx])) _ _
 
 theorem scanReal_digitStr (radix : Nat) (w : Text) (hw : DigitStr w) : ∀ i st, scanReal radix i st w = st := by
@@ -138,7 +137,7 @@ theorem specialReal_neg_digit (c : Char) (cs : Text) (hc : isDigit c = true) :
   simp [specialReal, h1, h2]
 
 theorem signIdxs_append_digits (w rest : Text) (hw : DigitStr w) : ∀ i acc,
-    signIdxs i acc (w ++ rest) = signIdxs (i + w.length) acc rest := by
+    signIdxs false i acc (w ++ rest) = signIdxs false (i + w.length) acc rest := by
   induction w with
   | nil => intro i acc; simp
   | cons c cs ih =>
@@ -146,8 +145,7 @@ theorem signIdxs_append_digits (w rest : Text) (hw : DigitStr w) : ∀ i acc,
     have hc := hw c (by simp)
     have h1 : (c == '+' || c == '-') = false := by digit_cases hc
     have h2 : (c == 'e' || c == 'E') = false := by digit_cases hc
-    rw [List.cons_append, signIdxs.eq_def]
-    simp only [h1, h2, Bool.false_eq_true, if_false]
+    simp only [List.cons_append, signIdxs, h1, h2, Bool.false_eq_true, if_false]
     rw [ih (fun x hx => hw x (by simp [hx]))]
     have : i + 1 + cs.length = i + (c :: cs).length := by simp only [List.length_cons]; omega
     rw [this]
@@ -176,12 +174,12 @@ theorem scanReal_slash (radix : Nat) (w : Text) (i : Nat) :
   simp [scanReal]
 
 theorem signIdxs_minus (w : Text) (i : Nat) :
-    signIdxs i [] ('-' :: w) = signIdxs (i + 1) [i] w := by
-  rw [signIdxs.eq_def]; simp
+    signIdxs false i [] ('-' :: w) = signIdxs false (i + 1) [i] w := by
+  simp [signIdxs]
 
 theorem signIdxs_slash (w : Text) (i : Nat) (acc : List Nat) :
-    signIdxs i acc ('/' :: w) = signIdxs (i + 1) acc w := by
-  rw [signIdxs.eq_def]; simp
+    signIdxs false i acc ('/' :: w) = signIdxs false (i + 1) acc w := by
+  simp [signIdxs]
 
 /-- the last character of a nonempty digit string (after any prefix) is not `i` -/
 theorem getLast_append_digits (pre w : Text) (hw : DigitStr w) (hne : w ≠ []) :
@@ -237,7 +235,7 @@ theorem writeInt_numChars (i : Int) : ∀ c ∈ writeInt i, isNumChar c = true :
 theorem contains_at_append (a b : Text) : (a ++ b).contains '@' = (a.contains '@' || b.contains '@') := by
   induction a with
   | nil => simp
-  | cons c cs ih => simp [List.contains_cons, ih, Bool.or_assoc]
+  | cons c cs ih => simp [Bool.or_assoc]
 
 /-- facts about the text of a written integer (optionally followed by `/digits`) -/
 structure NumText (s : Text) : Prop where
